@@ -262,13 +262,17 @@ def cut_force_progress(ctx):
     P_ = "Option::Some{0: %s}" % PV
     cuts = []
     disc = {"same": None, "new": None}
+    def nn(s):
+        # the wrapped iterator's next(): a boxed `dyn Iterator` or a type parameter `I: Iterator` - the same call
+        return re.sub(r"(?:<\w+ as Iterator>::|Iterator::)next\(", "next(", strip_ver(s))
+
     for p in checked(d, "force-progress-next", fb, ctx.walk(fb).paths):
         gs, r = summarize(p)
-        gs = [strip_ver(g) for g in gs]
-        r = strip_ver(r)
+        gs = [nn(g) for g in gs]
+        r = nn(r)
         loc = fb.loc(p.blocks[-1])
-        st = dict((strip_ver(show(e[1])), strip_ver(render(e[2]))) for e in p.effects if e[0] == "store")
-        base_calls = [e for e in p.effects if e[0] == "call" and e[1] == "next"]
+        st = dict((strip_ver(show(e[1])), nn(render(e[2]))) for e in p.effects if e[0] == "store")
+        base_calls = [e for e in p.effects if e[0] == "call" and e[1].split("::")[-1] == "next"]
         if any(g == "variant(next(a1.base))=None" for g in gs):
             _rec(d, "exhausted-with-base", r == "Option::None", "when the wrapped iterator is exhausted the answer must be None", loc)
             continue
